@@ -5,7 +5,7 @@ import ast
 
 from ..core import AnalysisError
 from ..poly import P, _mentions
-from ..symex import Ev, find_atoms, call_name, seq_items
+from ..symex import obj_init, Ev, find_atoms, call_name, seq_items
 from .generic import string_value
 
 SD = "shape/shape_descriptors.py"
@@ -231,6 +231,15 @@ def r09_1(chk, sd, dx):
         a_ok = a_ok and out_ok
         chk.ob("R09.1", DX, q, "every grid direction is searched from the given origin, component by component", o_ok and d_ok and a_ok,
                fingerprint=f"{q}:plumbing", found=f"o {o_ok} d {d_ok} args {a_ok}")
+        # ... every direction: the loop and the result array run over the number of rows of the grid
+        gname = ev.param_names[2]
+        lp_ = call[0].loops[-1] if call and call[0].loops else None
+        nrows = f"{gname}.shape[0]"
+        alloc = [x.value for x in ev.events if x.kind == "assign" and x.value is not None and ("numpy.empty(" in x.value.key() or "numpy.zeros(" in x.value.key())]
+        size_ok = bool(alloc) and all((obj_init(v).as_atom()[2][0].key() == nrows) for v in alloc)
+        chk.ob("R09.1", DX, q, "one radius per grid direction: the loop runs over 0 .. grid.shape[0] and the result has that many entries",
+               lp_ is not None and lp_.kind == "range" and lp_.lo == P.const(0) and lp_.hi is not None and lp_.hi.key() == nrows and size_ok,
+               fingerprint=f"{q}:all-directions", found=f"loop [{lp_.lo if lp_ else None}, {lp_.hi if lp_ else None}), result sizes {[str(obj_init(v).as_atom()[2][0]) for v in alloc]}")
 
 
 def r09_2(chk, sd, dx):
